@@ -82,6 +82,7 @@ def check(run):
         if ob is not None:
             states.append((rotated_state(c), ob, m, 'moved-in-place'))
     g = None
+    steps = 0
     for c, obs_list, m, hist in states:
         obs = obs_list[0]
         run.replayed += 1
@@ -99,6 +100,18 @@ def check(run):
                 g._vertices[b].pose = g._vertices[a].pose             # two vertices share one pose object
                 run.notes['aliased_cases'] = run.notes.get('aliased_cases', 0) + 1
         S = max([abs(x) for v in c['verts'] for x in v['t']] + [1])
+        # every second graph: the Jacobians of ALL its edges are requested first and compared afterwards (a result handed out earlier must not
+        # be affected by later calls on other edges)
+        collect_first = run.replayed % 2 == 0
+        held = {}
+        if collect_first:
+            for n, (e_case, e) in enumerate(zip(c['edges'], g._edges)):
+                if e_case['cls'] in fam:
+                    try:
+                        held[n] = e.calc_jacobians()
+                    except Exception:  # noqa  (reported below, where the call is repeated)
+                        pass
+            run.notes['graphs_with_jacobians_collected_first'] = run.notes.get('graphs_with_jacobians_collected_first', 0) + 1
         for n, (e_case, e) in enumerate(zip(c['edges'], g._edges)):
             if e_case['cls'] not in fam:
                 continue
@@ -115,7 +128,7 @@ def check(run):
             key = dict(part='jacobian', family=e_case['cls'], kind=c['verts'][e_case['vs'][0] - 1]['k'])
             before = [np.array(v.pose) for v in e.vertices]
             try:
-                jacs = e.calc_jacobians()
+                jacs = held[n] if n in held else e.calc_jacobians()
             except Exception as ex:  # noqa
                 run.violation(dict(key, outcome='raised'), 'calc_jacobians raised %r | edge %r' % (ex, e_case), dict(case=c, edge=n))
                 continue
@@ -146,7 +159,13 @@ def check(run):
                     break
         if run.replayed % 9 == 1:
             run.sample(dict(case=c, exact_jacobian_edge0=obs['jac'][0][:2]))
+        if hist is None and not m:
+            # the inherited calc_chi2_gradient_hessian feeds these Jacobians into the normal equations: one real iteration on a fresh graph must
+            # apply the exact Gauss-Newton step (within the accuracy of the forward difference), also for unary and ternary edges
+            r = c03.step_compare(run, c, obs_list, dict(part='step', kind=c['verts'][0]['k']))
+            steps += r is not None
     run.notes['custom_edges_compared'] = fam
+    run.notes['gauss_newton_steps_compared'] = steps
     if min(fam.values()) == 0:
         raise RuntimeError('vacuity guard: %r' % fam)
     # ---- same optimum as the analytic twin ----
